@@ -26,6 +26,10 @@ def gen_tree(rng, *, depth=3, links=True, maxentries=14, names="simple"):
         if parent.count("/") + (1 if parent else 0) >= depth and rng.random() < 0.7:
             parent = ""
         nm = comp()
+        sibs = [u.rsplit("/", 1)[-1] for u in used if (u.rsplit("/", 1)[0] if "/" in u else "") == parent]
+        if sibs and rng.random() < 0.2:
+            # a sibling whose name merely extends another one ('lib' / 'lib64'): string prefixes are not path prefixes
+            nm = rng.choice(sibs) + rng.choice(["64", "s", "0", ".d", "_"])
         rel = (parent + "/" + nm) if parent else nm
         if rel in used or any(rel.lower() == u.lower() for u in used):
             continue
